@@ -37,7 +37,9 @@ type exchange struct {
 	id      types.Specifier
 	req     pobj // may be nil (no request body)
 	resp    pobj
-	respErr string // host answers with this error instead
+	respErr string          // host answers with this error instead
+	errType types.Specifier // RHP3: the error's type and data members, when the host sets them
+	errData []byte
 	reqEnc  []byte
 	respEnc []byte
 	maxReq  uint64 // limit the reader passes
@@ -143,6 +145,10 @@ func buildExchanges(t *sim.Tape, v int, overlimit bool) []exchange {
 		}
 		if t.Chance(1, 6) {
 			ex.respErr = string(hexish(sim.HashBytes("err", uint64(i), 1, t.Range(1, 100))))
+			if v == 3 && t.Chance(1, 2) {
+				ex.errType = types.NewSpecifier(pick(t, "BadRequest", "HostFault", "x"))
+				ex.errData = sim.HashBytes("errdata", uint64(i), 2, t.Range(0, 40))
+			}
 		}
 		if v == 2 && ex.respErr == "" && t.Chance(1, 4) {
 			ex.raw = true
@@ -235,7 +241,9 @@ func runRHP2(s *Session, exs []exchange, wrongKey bool) {
 					var body []byte
 					body, err = io.ReadAll(io.LimitReader(rr, int64(len(ex.respEnc))))
 					if err == nil {
-						err = rr.VerifyTag()
+						if err = rr.VerifyTag(); err != nil && t.PrematureCloseErr() == nil && !t.IsClosed() {
+							e.violate("C19", "rhp2-tamper-session-open", fmt.Sprintf("exchange %d: VerifyTag refused the streamed response (%v) but the session stays open", i, err))
+						}
 					}
 					if err == nil {
 						d := types.NewBufDecoder(body)
@@ -396,8 +404,8 @@ func runRHP3(s *Session, exs []exchange, wrongKey bool) {
 			var re *rhp3.RPCError
 			switch {
 			case ex.respErr != "" && errors.As(err, &re):
-				if re.Description != ex.respErr {
-					e.violate("C19", "rhp3-error-altered", fmt.Sprintf("exchange %d: error %q arrived as %q", i, ex.respErr, re.Description))
+				if re.Description != ex.respErr || re.Type != ex.errType || !bytes.Equal(re.Data, ex.errData) {
+					e.violate("C19", "rhp3-error-altered", fmt.Sprintf("exchange %d: error (type %v, %d data bytes, %q) arrived as (type %v, %d data bytes, %q)", i, ex.errType, len(ex.errData), ex.respErr, re.Type, len(re.Data), re.Description))
 				}
 				e.inc("rpc.error-delivered")
 				e.logf("ex %d %s: rpc error delivered", i, ex.name)
@@ -468,7 +476,11 @@ func runRHP3(s *Session, exs []exchange, wrongKey bool) {
 			}
 			e.inc("rpc.read")
 			if ex.respErr != "" {
-				err = st.WriteResponseErr(errors.New(ex.respErr))
+				if ex.errType != (types.Specifier{}) {
+					err = st.WriteResponseErr(&rhp3.RPCError{Type: ex.errType, Data: ex.errData, Description: ex.respErr})
+				} else {
+					err = st.WriteResponseErr(errors.New(ex.respErr))
+				}
 			} else {
 				err = st.WriteResponse(ex.resp)
 			}
